@@ -18,6 +18,7 @@ import (
 	"runtime/debug"
 	"runtime/metrics"
 	"strings"
+	"syscall"
 	"time"
 
 	sdkmath "cosmossdk.io/math"
@@ -51,6 +52,14 @@ type callRes struct {
 	p   any
 }
 
+func cpuTime() time.Duration {
+	var ru syscall.Rusage
+	if err := syscall.Getrusage(syscall.RUSAGE_SELF, &ru); err != nil {
+		return 0
+	}
+	return time.Duration(ru.Utime.Nano() + ru.Stime.Nano())
+}
+
 func heapBytes() uint64 {
 	s := []metrics.Sample{{Name: "/memory/classes/heap/objects:bytes"}}
 	metrics.Read(s)
@@ -80,7 +89,9 @@ func (u *U) guarded(fn func() error) (cls string, pv any) {
 		}()
 		r.err = fn()
 	}()
-	deadline := time.After(5 * time.Second)
+	// the 5 s budget is measured in process CPU time (robust on a loaded machine); 60 s wall is the hard stop
+	cpu0 := cpuTime()
+	deadline := time.After(60 * time.Second)
 	tick := time.NewTicker(100 * time.Millisecond)
 	defer tick.Stop()
 	for {
@@ -97,8 +108,11 @@ func (u *U) guarded(fn func() error) (cls string, pv any) {
 			if h := heapBytes(); h > base+(1<<30) {
 				return "unbounded", fmt.Sprintf("heap grew by %d MiB", (h-base)>>20)
 			}
+			if d := cpuTime() - cpu0; d > 5*time.Second {
+				return "unbounded", fmt.Sprintf("no result after %s of CPU time", d.Round(time.Second))
+			}
 		case <-deadline:
-			return "unbounded", "no result after 5s"
+			return "unbounded", "no result after 60s"
 		}
 	}
 }
